@@ -13,7 +13,7 @@ META = dict(
          "http://127.0.0.1:8080/a/b/c?s=1 or https://127.0.0.1:8443/a/b/c?s=1 and sends one GET. The origins answer the k-th "
          "request they see with the k-th redirect of the chain (status from {301, 302, 303, 307}, a Location, a small body) and "
          "the request after the last redirect with 200. Location forms, relative to the URL just requested: absolute same origin, "
-         "absolute other port, absolute other host, absolute without port (default port), http->https (upgrade), https->http "
+         "absolute other port, absolute other host, absolute without port (default port), absolute without path (other port), http->https (upgrade), https->http "
          "(downgrade), relative 'x', '/x/y', '../x' - each with and without a query - and '?q=1'. All chains of length 0..2 with "
          "all four status rotations under all schedules with <= 1 deviation (quick), chains of length 3 with one status rotation "
          "under the default schedule (quick); thorough: all chains <= 3 with four rotations and <= 1 deviation, chains <= 2 with "
@@ -25,7 +25,7 @@ META = dict(
          "delivered; no request ever reaches an http origin after an https one.",
     note="Origins are harness-played (they answer a complete request at once); the redirected method is not judged (the "
          "statement does not define 303 semantics); only GET without a body is sent. Fragments, percent-encoded and non-ASCII "
-         "Locations and Locations without a path are not generated. Connection loss, refused connections and TLS handshake "
+         "Locations are not generated. Connection loss, refused connections and TLS handshake "
          "faults are C25/C27's subject.",
 )
 from urllib.parse import urljoin, urlsplit
@@ -64,6 +64,7 @@ def forms(cur, n):
         ("host", "%s://%s:%d/host%d" % (scheme, ohost, port, n)),
         ("host+q", "%s://%s:%d/host%d?k=v%d" % (scheme, ohost, port, n, n)),
         ("noport", "%s://%s/noport%d" % (scheme, host, n)),
+        ("nopath", "%s://%s:%d" % (scheme, host, oport)),
         ("rel", "x%d" % n),
         ("rel+q", "x%d?k=v%d" % (n, n)),
         ("abspath", "/x%d/y" % n),
@@ -363,7 +364,7 @@ def run():
         "states = distinct client snapshots after a service call; transitions = service calls; traces = executions judged",
     ]
     return ck.finish(
-        rule="2 start schemes x every chain of <= 3 redirects over 15 Location forms (per current URL) x status rotations x "
+        rule="2 start schemes x every chain of <= 3 redirects over 16 Location forms (per current URL) x status rotations x "
              "schedules within the deviation bound (side order, client short reads); see coverage.passes",
         exhaustive=False,
         explanation="exhaustive over the chain grammar within length 3; schedules within the deviation bound")
